@@ -234,6 +234,26 @@ def run(ctx, shared=True):
         ctx.decide(cnt == (1, 1) and by_one, "C06.once", sample.ident, loc_of(sample, lnode),
                    f"the step counter '{it_name}' is incremented by one exactly once per iteration",
                    f"the step counter '{it_name}' is updated {cnt} times per iteration (by one: {by_one})", disc="counter")
+    # the recorded schedule gets its entries in the loop only: an append to history.beta after the loop (directly, or through a helper of the sampler that the
+    # final enlargement calls as well) records the final temperature a second time, and the recorded sequence is no longer strictly increasing
+    smc_cls_ = sample.cls
+
+    def _appends_beta(fn_node):
+        return [n_ for n_ in walk_no_nested(fn_node) if isinstance(n_, ast.Call) and isinstance(n_.func, ast.Attribute) and n_.func.attr in ("append", "extend", "insert")
+                and isinstance(n_.func.value, ast.Attribute) and n_.func.value.attr == "beta" and isinstance(n_.func.value.value, ast.Attribute) and n_.func.value.value.attr == "history"]
+    late_ = []
+    for n_ in walk_no_nested(sample.node):
+        if getattr(n_, "lineno", 0) <= lnode.end_lineno:
+            continue
+        if n_ in _appends_beta(sample.node):
+            late_.append((n_, "history.beta.append"))
+        if isinstance(n_, ast.Call) and isinstance(n_.func, ast.Attribute) and isinstance(n_.func.value, ast.Name) and n_.func.value.id == sample.params[0] and smc_cls_ is not None:
+            h_ = smc_cls_.resolve(n_.func.attr)
+            if h_ is not None and h_ is not sample and _appends_beta(h_.node):
+                late_.append((n_, f"self.{n_.func.attr}() -> history.beta.append"))
+    ctx.decide(not late_, "C06.once", sample.ident, loc_of(sample, late_[0][0] if late_ else lnode), "the recorded temperatures are appended inside the loop only",
+               (f"`{late_[0][1]}` at line {late_[0][0].lineno} runs after the loop: when the final enlargement takes place the recorded schedule gets one more entry (the final temperature again), "
+                "so history.beta is not strictly increasing and a fixed schedule of n steps records n + 1 temperatures") if late_ else "", disc="after-loop")
     # the exit test is evaluated every iteration after the update
     if upd:
         tests = {node for _, node in exit_conds}
@@ -361,6 +381,14 @@ def run(ctx, shared=True):
         ctx.decide(b0 is not None and T.const_value(b0) == 0 and i0 is not None and T.const_value(i0) == 0, "C06.opts", sample.ident, loc_of(sample),
                    "a fresh run enters the loop with beta = 0 and the iteration counter at 0",
                    f"a fresh run enters the loop with beta = {T.show(b0) if b0 else None}, iterations = {T.show(i0) if i0 else None}: the step cap / fixed step count is off", disc="start")
+    if lpp:
+        # the tolerance the search runs with is the caller's: a floor derived from something else (the population's dtype, say) overrides a finer request, and a
+        # search whose bracket stops above the first admissible step returns the current temperature -- with no minimum step the schedule does not advance
+        t0 = lpp[0]["pre"].get("beta_tolerance")
+        ctx.decide(t0 is None or t0 == T.atom("beta_tolerance"), "C06.opts", sample.ident, loc_of(sample), "the bisection tolerance in force in the loop is the option's value",
+                   f"the loop runs with beta_tolerance = {T.show(t0)[:120] if t0 else None}, not the value the caller asked for: a coarser tolerance than requested lets the search return the "
+                   "current temperature when the first admissible step is smaller than it (a peaked likelihood), and without a minimum step the recorded temperatures repeat and the run does not end",
+                   disc="tolerance-value")
     if upd and isinstance(upd[0].ast, ast.Assign) and isinstance(upd[0].ast.value, ast.Call):
         kwn = {k.arg: (k.value.id if isinstance(k.value, ast.Name) else None) for k in upd[0].ast.value.keywords}
         posn = dict(zip(db.params[1:], [a.id if isinstance(a, ast.Name) else None for a in upd[0].ast.value.args]))
@@ -473,12 +501,14 @@ MUTANTS = [
     M("adaptive result ignores min step", _B, "beta = max(beta_star, beta_prev + min_step)", "beta = beta_star", "C06.floor"),
     M("loop exits on cap only", _B, "if beta == 1.0 or (\n                    max_n_steps is not None and iterations >= max_n_steps\n                ):", "if max_n_steps is not None and iterations >= max_n_steps:", "C06.exit"),
     M("loop has an extra early exit", _B, "if beta == 1.0 or (", "if beta == 1.0 or iterations > 500 or (", "C06.exit"),
+    M("final enlargement recorded as one more temperature", _B, "samples = self.mutate(final_samples, 1.0, n_steps=n_final_steps)", "samples = self.mutate(final_samples, 1.0, n_steps=n_final_steps)\n            self.history.beta.append(1.0)", "C06.once"),
     M("counter incremented twice", _B, "samples = samples.resample(beta, rng=self.rng)\n\n                samples = self.mutate(samples, beta)", "samples = samples.resample(beta, rng=self.rng)\n                iterations += 1\n                samples = self.mutate(samples, beta)", "C06.once"),
     M("temperature updated from stale beta", _B, "beta, min_step = self.determine_beta(\n                    samples,\n                    beta,", "beta, min_step = self.determine_beta(\n                    samples,\n                    samples.beta,", "C06.once"),
     M("exit test skipped on some iterations", _B, "maybe_checkpoint()\n                if beta == 1.0 or (", "maybe_checkpoint()\n                if iterations % 2:\n                    continue\n                if beta == 1.0 or (", "C06.exit"),
     M("division by zero denominator", _B, "beta_min = 1.0\n            target_eff", "beta_min = 1.0\n            min_step = min_step / (beta_max - beta_min)\n            target_eff", "C06.div0"),
 ]
 MUTANTS += [
+    M("tolerance floored at the machine epsilon of the population's dtype", _B, "run_smc_loop = True\n        if resumed:", "beta_tolerance = max(beta_tolerance, float(self.xp.finfo(samples.dtype).eps))\n        run_smc_loop = True\n        if resumed:", "C06.opts"),
     M("adaptive runs without n_steps rejected", _B, "elif not adaptive:\n            raise ValueError", "elif adaptive:\n            raise ValueError", "C06.opts"),
     M("fixed schedules rejected unless adaptive", _B, "if n_steps is not None:\n            beta_step = 1 / n_steps", "if n_steps is not None and adaptive:\n            beta_step = 1 / n_steps", "C06.opts"),
     M("iteration counter starts at one", _B, "beta = 0.0\n            iterations = 0", "beta = 0.0\n            iterations = 1", "C06.opts"),
